@@ -1,9 +1,241 @@
-(** C13 - theorems (work in progress: the full list is being moved in from Proofs.v) *)
+(** C13 - Model names and digests cannot address anything outside the model store.
+
+    Theorems only (proofs are in PathProofs.v, Proofs.v, Confine.v, Fold.v).  Vocabulary:
+    - [str] = list of bytes; every theorem quantifies over all byte strings / all values of the Go structs;
+    - [part_ok k s]    : s is a valid part of kind k (length 1..350 for a host, 1..80 otherwise; first byte
+                         alphanumeric or '_'; every byte allowed by the per-kind rule) - lemma [m_valid_part_ok] shows
+                         that this is exactly isValidPart;
+    - [fq_parts h n m t] : the four parts are valid for host/namespace/model/tag;
+    - [safe_comp c]    : c is a path element that cannot move: not empty, not ".", not "..", no '/';
+    - [fp_clean], [fp_join], [fp_abs] : filepath.Clean / Join / Abs (model in Path.v, tied to the real library);
+    - [path_append base [c1..cn]] : base/c1/../cn - "inside base at depth n";
+    - [cv a b]         : a and b differ only in the case of ASCII letters. *)
 From Coq Require Import List NArith Bool.
-From V Require Import Common.Bytes Names.Path Names.Model.
+From V Require Import Common.Bytes Names.Path Names.Model Names.PathProofs Names.Proofs Names.Confine Names.Fold Names.Main.
 Import ListNotations.
 Open Scope N_scope.
 
-Theorem C13_digest_grammar_nonempty : digest_re_match [] = false.
-Proof. reflexivity. Qed.
-Print Assumptions C13_digest_grammar_nonempty.
+(** * 1. confinement *)
+
+(** valid parts are path elements that cannot traverse *)
+Theorem C13_parts_are_safe : forall h n m t, fq_parts h n m t -> Forall safe_comp [h; n; m; t].
+Proof. exact fq_parts_safe. Qed.
+Print Assumptions C13_parts_are_safe.
+
+(** ModelPath.GetManifestPath, for every root directory and every ModelPath (hence for every name string given to
+    ParseModelPath): an error, or exactly Clean(root)/manifests/host/namespace/model/tag; never a panic *)
+Theorem C13_confined : forall root mp,
+  (mp_manifest_path root mp = Err ENotExist /\ m_is_fq (mp_name mp) = false) \/
+  (fq_parts (mpRegistry mp) (mpNamespace mp) (mpRepository mp) (mpTag mp) /\
+   mp_manifest_path root mp =
+   Ok (path_append (fp_clean root) [s_manifests; mpRegistry mp; mpNamespace mp; mpRepository mp; mpTag mp])).
+Proof. exact mp_manifest_path_cases. Qed.
+Print Assumptions C13_confined.
+
+Example C13_confined_nonvacuous :
+  mp_manifest_path [47; 109] (mp_parse [104; 58; 56; 47; 110; 47; 109; 58; 116])      (* root "/m", name "h:8/n/m:t" *)
+  = Ok [47; 109; 47; 109; 97; 110; 105; 102; 101; 115; 116; 115; 47; 104; 58; 56; 47; 110; 47; 109; 47; 116].
+Proof. vm_compute. reflexivity. Qed.                                                 (* "/m/manifests/h:8/n/m/t" *)
+
+(** Name.Filepath refuses a name that is not fully qualified, and is host/namespace/model/tag otherwise;
+    manifest.go joins it below <root>/manifests *)
+Theorem C13_filepath : forall root n,
+  (m_is_fq n = false /\ m_filepath n = Panic) \/
+  (fq_parts (mH n) (mN n) (mM n) (mT n) /\
+   exists fp, m_filepath n = Ok fp /\ fp = intercalate [c_slash] [mH n; mN n; mM n; mT n] /\
+              fp_join [root; s_manifests; fp] = path_append (fp_clean root) [s_manifests; mH n; mN n; mM n; mT n]).
+Proof. exact main_C13_filepath. Qed.
+Print Assumptions C13_filepath.
+
+(** GetBlobsPath, for every root and every digest string: rejected, or the blobs directory itself (empty string, by
+    design), or Clean(root)/blobs/sha256-<the 64 hex digits of the input> *)
+Theorem C13_confined_digest : forall root d,
+  (get_blobs_path root d = Err EInvalidDigest /\ d <> [] /\ digest_re_match d = false) \/
+  (d = [] /\ get_blobs_path root d = Ok (path_append (fp_clean root) [s_blobs])) \/
+  (exists hexs, digest_shape d hexs /\ safe_comp (s_sha256 ++ c_dash :: hexs) /\
+                get_blobs_path root d = Ok (path_append (fp_clean root) [s_blobs; s_sha256 ++ c_dash :: hexs])).
+Proof. exact main_C13_confined_digest. Qed.
+Print Assumptions C13_confined_digest.
+
+(** the two digest gates accept the same language: ^sha256[:-][0-9a-fA-F]{64}$ *)
+Theorem C13_digest_gates_agree : forall s, digest_re_match s = true <-> exists sum, b_parse_digest s = Ok sum.
+Proof. exact digest_gates_agree. Qed.
+Print Assumptions C13_digest_gates_agree.
+
+(** blob.ParseDigest + DiskCache.GetFile (cache directory absolute): <dir>/blobs/sha256-<lower-case hex of the input> *)
+Theorem C13_confined_cache_blob : forall cwd dir s sum,
+  fp_is_abs dir = true -> b_parse_digest s = Ok sum ->
+  exists hexs, digest_shape s hexs /\ safe_comp (s_sha256 ++ c_dash :: map fold_byte hexs) /\
+               b_get_file cwd dir sum = path_append (fp_clean dir) [s_blobs; s_sha256 ++ c_dash :: map fold_byte hexs].
+Proof. exact main_C13_confined_cache_blob. Qed.
+Print Assumptions C13_confined_cache_blob.
+
+Example C13_confined_cache_blob_nonvacuous :
+  exists sum, b_parse_digest (s_sha256 ++ c_colon :: repeat 65 64) = Ok sum /\ fp_is_abs [47; 99] = true.
+Proof. eexists. split; vm_compute; reflexivity. Qed.
+
+(** blob.nameToPath / DiskCache.manifestPath, for every cache directory, every name string and every set of links on
+    disk: rejected, or <dir>/manifests/a/b/c/d with four elements that cannot traverse.  Hypothesis: c.links() yields
+    only paths "manifests/a/b/c/d" of directory entries (what fs.Glob("manifests/*/*/*/*") returns). *)
+Theorem C13_confined_cache_manifest : forall dir links name,
+  Forall link_wf links ->
+  b_manifest_path dir links name = Err EInvalidName \/
+  exists a b c d, Forall safe_comp [a; b; c; d] /\
+                  b_manifest_path dir links name = Ok (path_append (fp_clean dir) [s_manifests; a; b; c; d]).
+Proof. exact b_manifest_path_cases. Qed.
+Print Assumptions C13_confined_cache_manifest.
+
+Example C13_confined_cache_manifest_nonvacuous :
+  link_wf [109; 97; 110; 105; 102; 101; 115; 116; 115; 47; 72; 47; 110; 47; 109; 47; 116] /\       (* "manifests/H/n/m/t" *)
+  b_manifest_path [47; 99] [[109; 97; 110; 105; 102; 101; 115; 116; 115; 47; 72; 47; 110; 47; 109; 47; 116]] [104; 47; 110; 47; 109; 58; 116]
+  = Ok [47; 99; 47; 109; 97; 110; 105; 102; 101; 115; 116; 115; 47; 72; 47; 110; 47; 109; 47; 116].   (* "h/n/m:t" -> "/c/manifests/H/n/m/t" *)
+Proof.
+  split; [|vm_compute; reflexivity].
+  exists [72], [110], [109], [116]. split; [|reflexivity].
+  repeat constructor; try discriminate; intros [H|[]]; discriminate.
+Qed.
+
+(** a name relative path (ParseNameFromFilepath), for every string: rejected (the zero Name), or exactly four valid
+    parts joined by '/', nothing else *)
+Theorem C13_confined_relpath : forall s,
+  m_parse_from_filepath s = m_empty \/
+  exists h n m t, fq_parts h n m t /\ m_parse_from_filepath s = MkM h n m t /\ s = intercalate [c_slash] [h; n; m; t].
+Proof. exact m_parse_from_filepath_cases. Qed.
+Print Assumptions C13_confined_relpath.
+
+(** every byte string, through every entry point: rejected or confined (nothing else can happen) *)
+Theorem C13_reject_or_confined : forall (root s : str),
+  (* as a name: ParseModelPath + GetManifestPath *)
+  ((exists e, mp_manifest_path root (mp_parse s) = Err e) \/
+   exists h n m t, fq_parts h n m t /\ Forall safe_comp [s_manifests; h; n; m; t] /\
+                   mp_manifest_path root (mp_parse s) = Ok (path_append (fp_clean root) [s_manifests; h; n; m; t])) /\
+  (* as a name: model.ParseName + IsValid + Filepath *)
+  ((m_is_valid (m_parse s) = false /\ m_filepath (m_parse s) = Panic) \/
+   exists h n m t, fq_parts h n m t /\ m_parse s = MkM h n m t /\
+                   m_filepath (m_parse s) = Ok (intercalate [c_slash] [h; n; m; t])) /\
+  (* as a name: names.Parse + nameToPath + manifestPath of the blob cache *)
+  (forall links, Forall link_wf links ->
+     b_manifest_path root links s = Err EInvalidName \/
+     exists a b c d, Forall safe_comp [s_manifests; a; b; c; d] /\
+                     b_manifest_path root links s = Ok (path_append (fp_clean root) [s_manifests; a; b; c; d])) /\
+  (* as a name relative path *)
+  (m_parse_from_filepath s = m_empty \/
+   exists h n m t, fq_parts h n m t /\ m_parse_from_filepath s = MkM h n m t /\ s = intercalate [c_slash] [h; n; m; t]) /\
+  (* as a digest: GetBlobsPath *)
+  ((exists e, get_blobs_path root s = Err e) \/
+   (s = [] /\ get_blobs_path root s = Ok (path_append (fp_clean root) [s_blobs])) \/
+   exists file, safe_comp file /\ get_blobs_path root s = Ok (path_append (fp_clean root) [s_blobs; file])) /\
+  (* as a digest: blob.ParseDigest + GetFile *)
+  ((exists e, b_parse_digest s = Err e) \/
+   exists sum, b_parse_digest s = Ok sum /\
+               (fp_is_abs root = true -> forall cwd, exists file, safe_comp file /\
+                                                                  b_get_file cwd root sum = path_append (fp_clean root) [s_blobs; file])).
+Proof. exact main_C13_reject_or_confined. Qed.
+Print Assumptions C13_reject_or_confined.
+
+(** * 2. print / parse round trips *)
+Theorem C13_roundtrip_model : forall n, m_is_valid n = true -> m_parse (m_string n) = n.
+Proof. exact m_roundtrip. Qed.
+Print Assumptions C13_roundtrip_model.
+
+Example C13_roundtrip_model_nonvacuous : m_is_valid (m_parse [104; 58; 56; 47; 110; 47; 109; 58; 116]) = true.
+Proof. vm_compute. reflexivity. Qed.
+
+(** package names, with IsValid as repaired by fixes/C13-names-host-without-namespace.patch *)
+Theorem C13_roundtrip_names : forall n, n_is_valid n = true -> n_parse (n_string n) = n.
+Proof. exact n_roundtrip. Qed.
+Print Assumptions C13_roundtrip_names.
+
+Example C13_roundtrip_names_nonvacuous :
+  n_is_valid (n_parse [110; 47; 109]) = true /\ n_is_fq (n_parse [110; 47; 109]) = false.   (* "n/m": valid, not fully qualified *)
+Proof. vm_compute. split; reflexivity. Qed.
+
+(** the unchanged tree: the full statement is false, exactly for a host without a namespace *)
+Definition C13_roundtrip_names_unrepaired_full : Prop :=
+  forall n, n_is_valid_unrepaired n = true -> n_parse (n_string n) = n.
+
+Theorem C13_roundtrip_names_unrepaired_refuted : ~ C13_roundtrip_names_unrepaired_full.
+Proof. exact main_C13_roundtrip_names_unrepaired_refuted. Qed.
+Print Assumptions C13_roundtrip_names_unrepaired_refuted.
+
+Theorem C13_roundtrip_names_unrepaired_partial : forall n,
+  n_is_valid_unrepaired n = true -> nonempty (nH n) && negb (nonempty (nN n)) = false -> n_parse (n_string n) = n.
+Proof. exact main_C13_roundtrip_names_unrepaired_partial. Qed.
+Print Assumptions C13_roundtrip_names_unrepaired_partial.
+
+Example C13_roundtrip_names_unrepaired_partial_nonvacuous :
+  let n := n_parse [104; 47; 110; 47; 109; 58; 116] in
+  n_is_valid_unrepaired n = true /\ nonempty (nH n) && negb (nonempty (nN n)) = false.
+Proof. vm_compute. split; reflexivity. Qed.
+
+(** the relative path form: ParseNameFromFilepath(n.Filepath()) = n *)
+Theorem C13_roundtrip_relpath : forall h n m t,
+  fq_parts h n m t -> m_parse_from_filepath (intercalate [c_slash] [h; n; m; t]) = MkM h n m t.
+Proof. exact m_parse_from_filepath_roundtrip. Qed.
+Print Assumptions C13_roundtrip_relpath.
+
+(** names.Parse is total: its loop never exhausts the fuel [S (length s)] of the model *)
+Theorem C13_names_parse_total : forall s acc, n_parse_loop (S (length s)) s acc <> None.
+Proof. exact main_C13_names_parse_total. Qed.
+Print Assumptions C13_names_parse_total.
+
+(** * 3. the two parsers agree on fully qualified names, in both directions *)
+Theorem C13_cross_parser : forall h n m t,
+  m_is_fq (MkM h n m t) = n_is_fq (MkN h n m t) /\
+  (m_is_fq (MkM h n m t) = true ->
+     n_parse (m_string (MkM h n m t)) = MkN h n m t /\ m_parse (n_string (MkN h n m t)) = MkM h n m t).
+Proof. exact main_C13_cross_parser. Qed.
+Print Assumptions C13_cross_parser.
+
+Example C13_cross_parser_nonvacuous : m_is_fq (MkM [104; 58; 56] [110] [109; 46; 49] [116]) = true.
+Proof. vm_compute. reflexivity. Qed.
+
+(** isValidPart is exactly [part_ok] (first byte, per-kind byte rule, length), although the loop ranges over runes *)
+Theorem C13_valid_part_spec : forall k s, m_valid_part k s = true <-> part_ok k s.
+Proof. exact m_valid_part_ok. Qed.
+Print Assumptions C13_valid_part_spec.
+
+(** * 4. letter case *)
+
+(** case variants are accepted alike by both packages, and model.Name.EqualFold relates exactly the case variants *)
+Theorem C13_casefold_accepted_alike : forall a b,
+  cv_m a b -> m_is_valid a = m_is_valid b /\ (m_is_valid b = true -> m_equal_fold a b = true).
+Proof. exact main_C13_casefold_accepted_alike. Qed.
+Print Assumptions C13_casefold_accepted_alike.
+
+(** blob cache: two name strings that differ only in letter case are rejected alike, or resolve to the same stored
+    link, or (nothing stored under any case variant) to their own not-yet-existing paths *)
+Theorem C13_casefold_same_model : forall dir links s1 s2,
+  cv s1 s2 ->
+  (b_manifest_path dir links s1 = Err EInvalidName /\ b_manifest_path dir links s2 = Err EInvalidName) \/
+  (exists l, In l links /\ b_manifest_path dir links s1 = Ok (fp_join [dir; l]) /\
+             b_manifest_path dir links s2 = Ok (fp_join [dir; l])) \/
+  (exists h1 n1 m1 t1 h2 n2 m2 t2,
+      fq_parts h1 n1 m1 t1 /\ fq_parts h2 n2 m2 t2 /\ cv_parts h1 n1 m1 t1 h2 n2 m2 t2 /\
+      link_lookup links h1 n1 m1 t1 = None /\ link_lookup links h2 n2 m2 t2 = None /\
+      b_manifest_path dir links s1 = Ok (fp_join [dir; intercalate [c_slash] [s_manifests; h1; n1; m1; t1]]) /\
+      b_manifest_path dir links s2 = Ok (fp_join [dir; intercalate [c_slash] [s_manifests; h2; n2; m2; t2]])).
+Proof. exact b_manifest_path_cv. Qed.
+Print Assumptions C13_casefold_same_model.
+
+Example C13_casefold_same_model_nonvacuous :
+  cv [72; 47; 110; 47; 77; 58; 116] [104; 47; 78; 47; 109; 58; 84] /\                                (* "H/n/M:t" ~ "h/N/m:T" *)
+  b_manifest_path [47; 99] [[109; 97; 110; 105; 102; 101; 115; 116; 115; 47; 72; 47; 110; 47; 109; 47; 116]] [72; 47; 110; 47; 77; 58; 116]
+  = b_manifest_path [47; 99] [[109; 97; 110; 105; 102; 101; 115; 116; 115; 47; 72; 47; 110; 47; 109; 47; 116]] [104; 47; 78; 47; 109; 58; 84].
+Proof. split; vm_compute; reflexivity. Qed.
+
+(** names.Parse commutes with case folding *)
+Theorem C13_casefold_parse : forall s1 s2,
+  cv s1 s2 -> cv_n (n_parse s1) (n_parse s2) /\ n_is_fq (n_parse s1) = n_is_fq (n_parse s2) /\
+              n_is_valid (n_parse s1) = n_is_valid (n_parse s2).
+Proof. exact cv_n_parse. Qed.
+Print Assumptions C13_casefold_parse.
+
+(** DisplayShortest (used to hand a name to PullModel/PushModel) prints a string that parses back to a fully
+    qualified case variant of the name with the same model and tag *)
+Theorem C13_display_shortest : forall h n m t,
+  fq_parts h n m t ->
+  let n' := m_parse (m_display_shortest (MkM h n m t)) in
+  m_is_fq n' = true /\ cv_m n' (MkM h n m t) /\ mM n' = m /\ mT n' = t.
+Proof. exact m_display_shortest_parse. Qed.
+Print Assumptions C13_display_shortest.
